@@ -428,3 +428,63 @@ class regular_polygon_bbox:
         'minimal': lambda self, result: reaches(
             result, (self.vertices.x.min(), 0), (self.vertices.x.max(), 0), (0, self.vertices.y.min()), (0, self.vertices.y.max())),
     }
+
+
+# ---------------------------------------------------------------------------- the mask carries the region's box (every maskable class)
+# (the asymmetric annuli need the nesting lemma of their inner and outer box: their mask contracts in c02_masks.py carry the same clause
+# and are counted under C04 as well)
+MASKED = ('circle', 'ellipse', 'rectangle', 'polygon', 'circle_annulus', 'compound')
+
+
+def masked_region(B, kind):
+    from contracts.common import circle_annulus, asym_annulus, compound
+    if kind == 'circle':
+        return circle(B, 'r')
+    if kind == 'ellipse':
+        return ellipse(B, 'r', 'absent', 'rad')
+    if kind == 'rectangle':
+        return rectangle(B, 'r', 'absent', 'rad')
+    if kind == 'polygon':
+        return polygon(B, 'r')
+    if kind == 'circle_annulus':
+        return circle_annulus(B, 'r')
+    if kind == 'ellipse_annulus':
+        return asym_annulus(B, 'r', ELLIPSE_ANN, 'absent', 'rad')
+    if kind == 'rectangle_annulus':
+        return asym_annulus(B, 'r', RECT_ANN, 'absent', 'rad')
+    return compound(B, 'r', circle(B, 'r.a'), ellipse(B, 'r.b', 'absent', 'rad'), 'or_')
+
+
+def masked_ok(kind, r):
+    from contracts.common import circle_ok, ellipse_ok, polygon_ok, circle_annulus_ok, asym_annulus_ok
+    if kind == 'circle':
+        return circle_ok(r)
+    if kind in ('ellipse', 'rectangle'):
+        return ellipse_ok(r)
+    if kind == 'polygon':
+        return polygon_ok(r)
+    if kind == 'circle_annulus':
+        return circle_annulus_ok(r)
+    if kind in ('ellipse_annulus', 'rectangle_annulus'):
+        return asym_annulus_ok(r)
+    return circle_ok(r.region1) and ellipse_ok(r.region2)
+
+
+@contract(CIRCLE + '.to_mask', props=['C04', 'C13'])
+class mask_box_is_the_regions_box:
+    """the box carried by a mask is the box the region reports - before the mask was made and afterwards (making a mask changes
+    nothing the box depends on) - and the mask array has the box's shape"""
+    cases = {k + '-' + m: {'kind': k, 'mode': m} for k in MASKED for m in ('center', 'subpixels')
+             if not (m == 'subpixels' and k in ('circle_annulus', 'compound'))}      # compound masks exist in centre mode only
+
+    def setup(B, kind='circle', mode='center'):
+        return dict(self=masked_region(B, kind), kind=kind, mode=mode, subpixels=B.int('n'))
+    pre = lambda self, kind, mode, subpixels: masked_ok(kind, self) and subpixels >= 1
+    call = lambda self, mode, subpixels: dict(before=self.bounding_box, mask=self.to_mask(mode, subpixels), after=self.bounding_box,
+                                             again=self.to_mask(mode, subpixels))
+    post = {
+        'mask_box_is_the_box_reported_before': lambda result: same_box(result['mask'].bbox, result['before']),
+        'and_the_box_reported_afterwards': lambda result: same_box(result['mask'].bbox, result['after']),
+        'array_has_the_shape_of_the_box': lambda result: result['mask'].data.shape == result['mask'].bbox.shape,
+        'a_second_mask_has_the_same_box': lambda result: same_box(result['again'].bbox, result['mask'].bbox),
+    }
